@@ -5,12 +5,16 @@ A history is a list of ops (JSON lists):
   ["act", A]                                   the program itself, outside any activation
   ["newset", [ids]]                            AgentSet([agents with those ids still alive], random=model.random)
   ["collect"]                                  gc.collect()
-  ["activate", kind, form, sref, script, args, kwargs, script2?]
-  ["group", kind, outer, byform, sref, m, script, args, kwargs, script2?]
+  ["activate", kind, form, sref, script, args, kwargs, scripts?]     scripts = one script per further nesting level
+  ["group", kind, outer, byform, sref, m, script, args, kwargs, scripts?]
+  ["grouplist", outer, byform, sref, m, script, args, kwargs, scripts?]   groupby(result_type="list").do/map(callable)
+  ["foreignset", n, order]                      a second model with n agents + a set mixing both models (oracle only)
 with  A      = ["nop"] | ["rmself", keep] | ["rm", id, keep] | ["create", cls, n, keep] | ["drop", id] | ["add", id]
                | ["raise"]                      the callback raises (the activation is aborted)
-               | ["nested", kind, sref]         the callback itself calls sref.do/shuffle_do/map; agents called there run script2
-      kind   = "do" | "shuffle_do" | "map" | "shuffle_then_do" (= set.shuffle().do(...));  form = "name" | "callable"
+               | ["nested", kind, sref]         the callback itself calls sref.do/shuffle_do/map; agents called there run the next script
+               | ["trynested", kind, sref]      the same inside try: ... except Exception: pass
+      kind   = "do" | "shuffle_do" | "map" | "shuffle_then_do" (= set.shuffle().do(...)) | "copy_<kind>" (on copy.copy(set) /
+               set.select(), a copy nothing else refers to);  form = "name" | "callable"
       sref   = ["all"] | ["type", c] | ["user", k]
       script = [[id, [A, ...]], ...]           what agent `id` does on its turn
 The program's references (`ext`) are real references kept in a list by the driver; agents are reached through a
@@ -38,7 +42,8 @@ RULE = ("histories = one Model; top-level creation/removal/reference keeping of 
         "do nothing / remove self / remove an earlier or later or dead agent (reference kept or not) / create agents / "
         "drop or take references / raise / start a nested do, shuffle_do or map on any set (whose callbacks run a second script "
         "and may raise too); 45% of the activations stay inside the statement's own quantifier (no raise, no nesting); "
-        "set.shuffle().do(...) is driven beside shuffle_do; ALL one-act scripts over sets of size <= 3 (4 thorough, and 4 in the enumerator) are run first; "
+        "set.shuffle().do(...), copies nothing else refers to (copy.copy(set).do, set.select().do), groupby(result_type='list') and sets "
+        "mixing agents of a second model are driven beside shuffle_do; ALL one-act scripts over sets of size <= 3 (4 thorough, and 4 in the enumerator) are run first; "
         "non-trivial = an activation that called >= 2 agents; distinct = SHA1 of the history")
 TRUSTED_BASE = [
     "Coq 8.16.1 kernel (coqc); vm_compute used for the non-vacuity examples and for evaluating the model in the correspondence",
@@ -56,8 +61,10 @@ TRUSTED_BASE = [
     "Uint63 primitive hash only in scratch Cases files, never under a theorem",
 ]
 ASSUMPTIONS = [
-    "callbacks do not add/discard members of model-owned sets directly; nesting depth of activations is at most 2; "
-    "an exception raised by a callback is not caught inside callbacks (it leaves every running activation)",
+    "callbacks do not add/discard members of model-owned sets directly; activations nest to any depth in the model (up to 5 levels "
+    "generated); an exception raised by a callback leaves every running activation unless a callback catches it around a nested "
+    "activation (try: set.do(...) except Exception: pass)",
+    "sets mixing agents of two models are checked by the oracle only (the Gallina model has one registry)",
     "no reference cycles through agents (a cycle counts as 'the program still holds a reference')",
     "agents removed from the model while the program keeps a reference MAY be called (the statement allows it); the model says they are",
 ]
@@ -88,9 +95,11 @@ def _rand_act(rng, ids_hint, self_id=None, order=None, level=None):
     level 2 = callback of a nested activation (may raise)"""
     r = rng.random()
     hi = max(ids_hint) if ids_hint else 1
-    if level == 1 and rng.random() < 0.10:
-        return ["nested", rng.choice(KINDS), _rand_sref(rng)]
-    if level in (1, 2) and rng.random() < (0.05 if level == 1 else 0.08):
+    if level == 1 and rng.random() < 0.12:
+        return [rng.choice(["nested", "nested", "trynested"]), rng.choice(KINDS), _rand_sref(rng)]
+    if level is not None and level >= 2 and rng.random() < 0.10:
+        return [rng.choice(["nested", "trynested"]), rng.choice(["do", "map"]), _rand_sref(rng)]
+    if level is not None and rng.random() < (0.05 if level == 1 else 0.08):
         return ["raise"]
     if r < 0.22:
         return ["nop"]
@@ -174,20 +183,30 @@ def _rand_case(rng, big=False):
         plain = rng.random() < 0.45          # the statement's own quantifier: no raising, no nesting
         script = _rand_script(rng, order or hint, hint, density, None if plain else 1)
         script2 = []
-        if any(a[0] == "nested" for _, acts in script for a in acts):
-            script2 = _rand_script(rng, hint, hint, rng.choice([0.0, 0.3, 0.6]), 2)
+        cur_sc, lv = script, 2
+        while lv <= 4 and any(a[0] in ("nested", "trynested") for _, acts in cur_sc for a in acts):
+            cur_sc = _rand_script(rng, hint, hint, rng.choice([0.0, 0.3, 0.6]), lv)
+            script2.append(cur_sc)
+            lv += 1
         args = [rng.randint(0, 9) for _ in range(rng.choice([0, 0, 1, 2]))]
         kwargs = [rng.randint(0, 9) for _ in range(rng.choice([0, 0, 1, 2]))]
         kind = rng.choice(KINDS)
-        if rng.random() < 0.2:
+        r = rng.random()
+        if r < 0.06:
+            ops.append(["grouplist", rng.choice(["do", "map"]), rng.choice(["attr", "callable"]), sref, rng.choice([1, 2, 2, 3]),
+                        script, args, kwargs, script2])
+        elif r < 0.25:
             ops.append(["group", kind, rng.choice(["do", "map", "do-callable", "map-callable"]), rng.choice(["attr", "callable"]), sref,
                         rng.choice([1, 2, 2, 3]), script, args, kwargs, script2])
         else:
-            if rng.random() < 0.12:
+            r2 = rng.random()
+            if r2 < 0.12:
                 kind = "shuffle_then_do"
+            elif r2 < 0.22:
+                kind = "copy_" + kind
             ops.append(["activate", kind, rng.choice(["name", "callable"]), sref, script, args, kwargs, script2])
         # rough update of the shadow: count creations, forget removals (ids stay plausible targets)
-        for _, acts in script + script2:
+        for _, acts in script + [x for sc in script2 for x in sc]:
             for a in acts:
                 if a[0] == "create":
                     nid += a[2]
@@ -253,6 +272,26 @@ def gen_cases(rng, tier):
     n = 1100 if tier == "quick" else 15000
     for i in range(n):
         cases.append(_rand_case(rng, big=(i % 5 == 0)))
+    # a second model: sets mixing agents of two models (oracle only, the Gallina model has one registry)
+    for i in range(60 if tier == "quick" else 1500):
+        c = _rand_case(rng, big=False)
+        nmain = sum(1 for o in c["ops"] if o[0] == "act" and o[1][0] == "create")
+        nf = rng.randint(1, 3)
+        order = list(range(1, nmain + 1)) + [1000 + j for j in range(1, nf + 1)]
+        rng.shuffle(order)
+        k = sum(1 for o in c["ops"] if o[0] == "newset")
+        first = next((j for j, o in enumerate(c["ops"]) if o[0] in ("activate", "group", "grouplist")), len(c["ops"]))
+        ops = c["ops"][:first] + [["foreignset", nf, order]]
+        for o in c["ops"][first:]:
+            if o[0] in ("activate", "group", "grouplist") and rng.random() < 0.7:
+                o = list(o)
+                pos = {"activate": 3, "group": 4, "grouplist": 3}[o[0]]
+                o[pos] = ["user", k]
+                sc_pos = {"activate": 4, "group": 6, "grouplist": 5}[o[0]]
+                o[sc_pos] = list(o[sc_pos]) + [[1000 + rng.randint(1, nf), [rng.choice([["rmself", False], ["rm", rng.randint(1, max(1, nmain)), False],
+                                                                                      ["rm", 1000 + rng.randint(1, nf), rng.random() < 0.5], ["nop"]])]]]
+            ops.append(o)
+        cases.append({"ops": ops})
     return cases
 
 
@@ -282,9 +321,11 @@ def _env():
     def _make(name):
         def __init__(self, model):
             mesa.Agent.__init__(self, model)
+            # the driver's name of the agent: unique_id in the main model, 1000 + unique_id in a second model
+            self._hid = self.unique_id + getattr(model, "_hid_base", 0)
             self.g1 = 0
-            self.g2 = self.unique_id % 2
-            self.g3 = self.unique_id % 3
+            self.g2 = self._hid % 2
+            self.g3 = self._hid % 3
 
         def act(self, *a, **k):
             return ctx["cur"].call(self, a, k)
@@ -307,7 +348,7 @@ def _env():
 
     def _uid_of(r):
         o = r() if callable(r) else r
-        u = getattr(o, "unique_id", -1) if o is not None else -1
+        u = getattr(o, "_hid", -1) if o is not None else -1
         del o
         return u
 
@@ -321,12 +362,22 @@ class _Boom(Exception):
     """what a scripted callback raises"""
 
 
+def _scripts(x):
+    """the optional trailing element: a list of inner scripts, one per nesting level (a single script is accepted too)"""
+    if x and x[0] and isinstance(x[0][0], int):
+        return [x]
+    return list(x)
+
+
 def _norm(op):
-    """case ops with the optional trailing inner script made explicit"""
-    if op[0] == "activate" and len(op) < 8:
-        return list(op) + [[]]
-    if op[0] == "group" and len(op) < 10:
-        return list(op) + [[]]
+    """case ops with the optional trailing inner scripts made explicit"""
+    pos = {"activate": 7, "group": 9, "grouplist": 8}.get(op[0])
+    if pos is None:
+        return op
+    op = list(op)
+    if len(op) <= pos:
+        op.append([])
+    op[pos] = _scripts(op[pos])
     return op
 
 
@@ -345,9 +396,11 @@ class _Run:
         self.removed_at = {}     # uid -> event index of its (first, effective) removal from the model
         self.created_at = {}
         self.registered = set()  # shadow: created and not yet removed through remove()
-        self.script = {}
-        self.script2 = {}        # what agents called by a nested activation do
-        self.depth = 0           # 0 = program, 1 = inside a callback of the op's activation, 2 = inside a nested one
+        self.levels = []         # levels[d] = what the agents called at nesting depth d do (0 = the op's own activation)
+        self.depth = 0           # 0 = program, d = inside a callback at nesting depth d-1
+        self.pending = False     # an exception is travelling (raised and not caught by a callback)
+        self.strong = set()      # ids held by a strong container of the program (GroupBy with lists)
+        self.models = []         # further models (their agents are named 1000 + unique_id)
         self.calls = []          # (uid, event index, args, kwargs, held_by_program) of the activation in progress
         self.nlog = []           # observation of nested activations
         self.nested_perms = {}   # (agent id, act index) -> recorded permutation of a nested shuffle_do
@@ -366,7 +419,7 @@ class _Run:
             else:
                 tgt, keep = self.wv.get(a[1]), a[2]
             if tgt is not None:
-                uid = tgt.unique_id
+                uid = tgt._hid
                 tgt.remove()
                 if uid in self.registered:
                     self.registered.discard(uid)
@@ -379,7 +432,7 @@ class _Run:
             _, c, n, keep = a
             for _ in range(max(0, min(int(n), MAXCREATE))):
                 ag = self.env["classes"][c % NCLS](self.model)
-                uid = ag.unique_id
+                uid = ag._hid
                 self.wv[uid] = ag
                 self.registered.add(uid)
                 self.created_at[uid] = len(self.events)
@@ -389,7 +442,7 @@ class _Run:
                 del ag
         elif k == "drop":
             for j, o in enumerate(self.ext):
-                if o.unique_id == a[1]:
+                if o._hid == a[1]:
                     del self.ext[j]
                     break
             o = None
@@ -400,33 +453,38 @@ class _Run:
             del t
         elif k == "raise":
             if me is not None:
-                self.events.append(("raise", me.unique_id))
+                self.events.append(["raise", me._hid, None])
+                self.pending = True
                 raise _Boom()
-        elif k == "nested":
-            if self.depth == 1:
-                self.nested(a[1], a[2], where)
+        elif k in ("nested", "trynested"):
+            # allowed while there is a script for the agents it would call; below the outermost level only do / map
+            # (an inner callback may run several times, a recorded permutation could not be attached to the act)
+            if self.depth < len(self.levels) and (self.depth == 1 or a[1] != "shuffle_do"):
+                self.nested(a[1], a[2], where, catch=(k == "trynested"))
         else:
             raise ValueError(k)
 
     def call(self, agent, args, kwargs):
-        uid = agent.unique_id
+        uid = agent._hid
         # a reference is held by the program's own list or by a callback of this very agent that is still running
-        held = any(o is agent for o in self.ext) or uid in self.active
+        held = any(o is agent for o in self.ext) or uid in self.active or uid in self.strong
         self.calls.append((uid, len(self.events), args, kwargs, held))
         self.events.append(("call", uid))
-        sc = self.script if self.depth == 0 else self.script2
+        sc = self.levels[self.depth] if self.depth < len(self.levels) else {}
+        level = self.depth
         self.depth += 1
         self.active.append(uid)
         try:
             for j, a in enumerate(sc.get(uid, ())):
-                self.exec_act(agent, a, (uid, j))
+                self.exec_act(agent, a, (level, uid, j))
         finally:
             self.depth -= 1
             self.active.pop()
         return 2 * uid + 1
 
-    def nested(self, akind, sref, where):
-        """a callback calls do / shuffle_do / map on a set itself; the agents called there run script2"""
+    def nested(self, akind, sref, where, catch=False):
+        """a callback calls do / shuffle_do / map on a set itself (catch: inside try/except Exception);
+        the agents called there run the script of the next nesting level"""
         if akind not in KINDS:
             return
         s = self.resolve(sref)
@@ -446,7 +504,8 @@ class _Run:
         outer_rec, ctx["rec"] = ctx.get("rec"), []
         ev0 = len(self.events)
         raised = False
-        form = (where[0] + where[1]) % 2
+        form = (where[1] + where[2]) % 2
+        nlevel = self.depth
         target = "act" if form else (lambda agent, *a, **k: self.call(agent, a, k))
         try:
             res = getattr(s, akind)(target, tok=None)
@@ -466,10 +525,17 @@ class _Run:
                                       "what": f"nested shuffle_do over {snap} recorded the shuffles {rec}; shuffle() from the same generator state gives {expected}"})
         elif rec:
             self.failures.append({"key": f"C04/{site}/order", "op": self.opi, "what": f"{site} consumed the generator: {rec}"})
-        _check_activation(self, site, snap, expected, ev0, calls, self.failures, self.opi, raised=raised)
+        _check_activation(self, site, snap, expected, ev0, calls, self.failures, self.opi, raised=raised, level=nlevel)
         self.nested_perms[where] = perm
         self.nlog += [-35] + log
-        if raised:
+        if raised and catch:
+            # except Exception: pass  - the exception stops here: it aborted the activations started at this depth or deeper
+            for e in self.events[ev0:]:
+                if e[0] == "raise" and e[2] is None:
+                    e[2] = nlevel
+            self.pending = False
+            self.nlog += [-36]
+        elif raised:
             raise _Boom()
 
     # --- observation
@@ -483,12 +549,12 @@ class _Run:
 
     @staticmethod
     def ids(s):
-        return [a.unique_id for a in s]
+        return [a._hid for a in s]
 
     def view(self):
         mesa = self.env["mesa"]
         nxt = int(repr(mesa.Agent._ids[self.model])[6:-1])
-        out = [nxt, -10] + [a.unique_id for a in self.model._agents] + [-11] + sorted(o.unique_id for o in self.ext)
+        out = [nxt, -10] + [a._hid for a in self.model._agents] + [-11] + sorted(o._hid for o in self.ext)
         out += [-20] + self.ids(self.model.agents)
         for c in range(NCLS):
             s = self.model.agents_by_type.get(self.env["classes"][c])
@@ -502,7 +568,7 @@ class _Run:
         out = []
         regs = list(self.model._agents)
         for c, cls in enumerate(self.env["classes"]):
-            want = [a.unique_id for a in regs if type(a) is cls]
+            want = [a._hid for a in regs if type(a) is cls]
             s = self.model.agents_by_type.get(cls)
             got = None if s is None else self.ids(s)
             if (got is None and want) or (got is not None and got != want):
@@ -517,7 +583,7 @@ def _subseq(small, big):
     return all(any(x == y for y in it) for x in small)
 
 
-def _check_activation(run, site, snap, expected_order, ev0, calls, failures, opi, ordered=True, raised=False):
+def _check_activation(run, site, snap, expected_order, ev0, calls, failures, opi, ordered=True, raised=False, level=0):
     """the property statement over what the implementation did during one activation.
     snap: ids of the members when the call started; expected_order: the order in which they are to be visited;
     calls: [(uid, time, args, kwargs, held)]; raised: a callback raised (the activation was aborted there)"""
@@ -546,7 +612,9 @@ def _check_activation(run, site, snap, expected_order, ev0, calls, failures, opi
     end = len(run.events)
     pos = {u: i for i, u in enumerate(expected_order)}
     stop = None
-    t_raise = next((t for t in range(ev0, end) if run.events[t][0] == "raise"), None)
+    # an exception caught by a callback at depth c only aborts the activations nested deeper than c
+    t_raise = next((t for t in range(ev0, end) if run.events[t][0] == "raise"
+                    and (run.events[t][2] is None or run.events[t][2] <= level)), None)
     if t_raise is not None:
         # the exception leaves the loop during the call in progress: nobody is called afterwards,
         # members after that agent (in visiting order) are not visited
@@ -610,14 +678,15 @@ def _script_raises(script, log):
     return any(any(a[0] == "raise" for a in d.get(u, ())) for u in log)
 
 
-def _model_script(script, perms):
+def _model_script(script, perms, level=0):
     """the script with the recorded permutations of nested shuffles filled in"""
     d = {}
     for i, acts in script:
         d[int(i)] = acts
     out = []
     for i, acts in d.items():
-        out.append([i, [(["nested", a[1], a[2], perms.get((i, j), [])] if a[0] == "nested" else a) for j, a in enumerate(acts)]])
+        out.append([i, [([a[0], a[1], a[2], perms.get((level, i, j), [])] if a[0] in ("nested", "trynested") else a)
+                        for j, a in enumerate(acts)]])
     return out
 
 
@@ -628,6 +697,7 @@ def _run_impl(env, case):
     ctx = env["ctx"]
     ctx["cur"] = run
     obs, failures, ops_for_model = [], run.failures, []
+    model_ok = True
     for opi, op in enumerate(case["ops"]):
         op = _norm(op)
         kind = op[0]
@@ -638,7 +708,7 @@ def _run_impl(env, case):
         run.depth = 0
         try:
             if kind == "act":
-                run.depth = 2       # the program: nested / raise mean nothing here
+                run.depth = 1 << 20  # the program: nested / raise mean nothing here
                 run.exec_act(None, op[1])
                 run.depth = 0
                 obs.append(run.view())
@@ -653,8 +723,12 @@ def _run_impl(env, case):
                 gc.collect()
                 obs.append(run.view())
             elif kind == "activate":
-                _, akind, form, sref, script, args, kwargs, script2 = op[:8]
+                _, akind, form, sref, script, args, kwargs, scripts = op[:8]
                 s = run.resolve(sref)
+                via = None
+                if akind.startswith("copy_") and akind[5:] in KINDS:
+                    # a copy of the set that nothing but the running call refers to:  copy.copy(s).do(...) / s.select().do(...)
+                    via, akind = akind, akind[5:]
                 if s is None or akind not in KINDS + ["shuffle_then_do"]:
                     obs.append([-2])
                 else:
@@ -666,8 +740,8 @@ def _run_impl(env, case):
                         saved = rnd.getstate()
                         expected = run.ids(s.shuffle())       # what shuffle() produces from this generator state
                         rnd.setstate(saved)
-                    run.script = {int(i): acts for i, acts in script}
-                    run.script2 = {int(i): acts for i, acts in script2}
+                    run.levels = [{int(i): acts for i, acts in sc} for sc in [script] + scripts]
+                    run.pending = False
                     run.calls = []
                     ev0 = len(run.events)
                     token = object()
@@ -679,14 +753,17 @@ def _run_impl(env, case):
                     try:
                         if akind == "shuffle_then_do":
                             res = s.shuffle().do(target, *args, tok=token, **kw)
+                        elif via is not None:
+                            import copy as _copy
+
+                            res = getattr(_copy.copy(s) if len(script) % 2 else s.select(), akind)(target, *args, tok=token, **kw)
                         else:
                             res = getattr(s, akind)(target, *args, tok=token, **kw)
                     except _Boom:
                         raised = True
                     ctx["rec"] = None
                     calls = run.calls
-                    run.script = {}
-                    run.script2 = {}
+                    run.levels = []
                     log = [c[0] for c in calls]
                     perm = expected
                     if shuffled:
@@ -702,7 +779,7 @@ def _run_impl(env, case):
                         failures.append({"key": f"C04/{akind}/order", "op": opi,
                                          "what": f"{akind} consumed the generator (shuffles recorded: {rec}); it has to visit in set order {snap}"})
                     _check_activation(run, akind, snap, expected, ev0, calls, failures, opi, raised=raised)
-                    if not raised and (_script_raises(script, log) or -35 in run.nlog and _script_raises(script2, [u for u in run.nlog if u > 0])):
+                    if not raised and run.pending:
                         failures.append({"key": f"C04/{akind}/exception-swallowed", "op": opi,
                                          "what": f"a callback raised during {akind} but the call returned normally; calls: {log}"})
                     bad = _args_ok(calls, args, kw, token)
@@ -718,7 +795,7 @@ def _run_impl(env, case):
                                              "what": f"map returned {res!r}; the callable returned {want} in call order"})
                         ret = [-31] + ([int(x) for x in res] if isinstance(res, list) and all(isinstance(x, int) for x in res) else [-99])
                     else:
-                        same = res is s if akind != "shuffle_then_do" else (res is not None and res is not s and type(res) is type(s))
+                        same = res is s if (akind != "shuffle_then_do" and via is None) else (res is not None and res is not s and type(res) is type(s))
                         if not same:
                             failures.append({"key": f"C04/{akind}/return", "op": opi, "what": f"{akind} returned {res!r}, not the set it was called on"})
                         ret = [-32] if same else [-99]
@@ -735,21 +812,22 @@ def _run_impl(env, case):
                     for c in calls:
                         o += [c[0]] + [int(x) for x in c[2]] + [int(c[3][n]) for n in sorted(c[3]) if n != "tok" and isinstance(c[3][n], int)]
                     obs.append(o + ret + [-38] + run.nlog + run.view())
-                    mop = ["activate", akind, form, sref, _model_script(script, run.nested_perms), full, [], script2, perm]
+                    mop = ["activate", akind, form, sref, _model_script(script, run.nested_perms), full, [],
+                           [_model_script(sc, run.nested_perms, lv + 1) for lv, sc in enumerate(scripts)], perm]
             elif kind == "group":
-                _, akind, outer, byform, sref, m, script, args, kwargs, script2 = op[:10]
+                _, akind, outer, byform, sref, m, script, args, kwargs, scripts = op[:10]
                 s = run.resolve(sref)
                 if s is None or m not in (1, 2, 3) or akind not in KINDS:
                     obs.append([-2])
                 else:
                     snap = run.ids(s)
-                    run.script = {int(i): acts for i, acts in script}
-                    run.script2 = {int(i): acts for i, acts in script2}
+                    run.levels = [{int(i): acts for i, acts in sc} for sc in [script] + scripts]
+                    run.pending = False
                     run.calls = []
                     ev0 = len(run.events)
                     token = object()
                     kw = {f"k{j}": v for j, v in enumerate(kwargs)}
-                    gb = s.groupby(f"g{m}") if byform == "attr" else s.groupby(lambda a: a.unique_id % m)
+                    gb = s.groupby(f"g{m}") if byform == "attr" else s.groupby(lambda a: a._hid % m)
                     keys = list(gb.groups.keys())
                     want_groups = []
                     for a in snap:
@@ -778,8 +856,7 @@ def _run_impl(env, case):
                     outer = outer.split("-")[0]
                     ctx["rec"] = None
                     calls = run.calls
-                    run.script = {}
-                    run.script2 = {}
+                    run.levels = []
                     log = [c[0] for c in calls]
                     site = f"groupby-{akind}"
                     perms = []
@@ -802,7 +879,7 @@ def _run_impl(env, case):
                         if rec:
                             failures.append({"key": f"C04/{site}/order", "op": opi, "what": f"{site} consumed the generator: {rec}"})
                         _check_activation(run, site, snap, expected, ev0, calls, failures, opi, raised=raised)
-                    if not raised and _script_raises(script, log):
+                    if not raised and run.pending:
                         failures.append({"key": f"C04/{site}/exception-swallowed", "op": opi,
                                          "what": f"a callback raised during GroupBy.{outer}({akind!r}) but the call returned normally; calls: {log}"})
                     bad = _args_ok(calls, args, kw, token)
@@ -840,14 +917,117 @@ def _run_impl(env, case):
                     if any((u % m) not in keys[:nvis] for u in log):
                         o += [-99]
                     obs.append(o + ([-37] if raised else [-32]) + [-38] + run.nlog + run.view())
-                    mop = ["group", akind, outer, byform, sref, m, _model_script(script, run.nested_perms), full, [], script2, perms]
+                    mop = ["group", akind, outer, byform, sref, m, _model_script(script, run.nested_perms), full, [],
+                           [_model_script(sc, run.nested_perms, lv + 1) for lv, sc in enumerate(scripts)], perms]
+            elif kind == "grouplist":
+                # groupby(by, result_type="list"): the GroupBy holds plain lists; do/map hand each list to the program's callable
+                _, outer, byform, sref, m, script, args, kwargs, scripts = op[:9]
+                s = run.resolve(sref)
+                if s is None or m not in (1, 2, 3) or outer not in ("do", "map"):
+                    obs.append([-2])
+                else:
+                    snap = run.ids(s)
+                    run.levels = [{int(i): acts for i, acts in sc} for sc in [script] + scripts]
+                    run.pending = False
+                    run.calls = []
+                    ev0 = len(run.events)
+                    token = object()
+                    kw = {f"k{j}": v for j, v in enumerate(kwargs)}
+                    gb = (s.groupby(f"g{m}", result_type="list") if byform == "attr"
+                          else s.groupby(lambda a: a._hid % m, result_type="list"))
+                    want_groups = []
+                    for a in snap:
+                        k = a % m
+                        for kk, lst in want_groups:
+                            if kk == k:
+                                lst.append(a)
+                                break
+                        else:
+                            want_groups.append((k, [a]))
+                    got_groups = [(k, [a._hid for a in v] if isinstance(v, list) else None) for k, v in gb.groups.items()]
+                    if got_groups != want_groups:
+                        failures.append({"key": "C04/groupby-list/groups", "op": opi,
+                                         "what": f"groupby(result_type='list') on members {snap} by id mod {m} gave {got_groups}; required plain lists {want_groups}"})
+                    keys = [k for k, _ in want_groups]
+                    run.strong = set(snap)
+                    raised = False
+                    res = None
+                    try:
+                        res = getattr(gb, outer)(lambda grp, *a, **k: [run.call(agent, a, k) for agent in grp], *args, tok=token, **kw)
+                    except _Boom:
+                        raised = True
+                    calls = run.calls
+                    run.levels = []
+                    log = [c[0] for c in calls]
+                    site = "groupby-list"
+                    expected = [x for _, g in want_groups for x in g]
+                    t_raise = next((t for t in range(ev0, len(run.events)) if run.events[t][0] == "raise" and run.events[t][2] is None), None)
+                    upto = [c[0] for c in calls if t_raise is None or c[1] < t_raise]
+                    # the program's own loop over strong references: every member at groupby time, once, in group order
+                    if upto != expected[:len(upto)] or (not raised and upto != expected):
+                        failures.append({"key": f"C04/{site}/members-not-each-once", "op": opi,
+                                         "what": f"GroupBy.{outer}(callable) over the lists {want_groups} reached the agents {log}; every member once, in order: {expected}"})
+                    if raised != (t_raise is not None) or (raised and len(log) != len(upto)):
+                        failures.append({"key": f"C04/{site}/exception-swallowed" if not raised else f"C04/{site}/called-after-exception", "op": opi,
+                                         "what": f"a callback raised={t_raise is not None}, GroupBy.{outer} raised={raised}; calls: {log}"})
+                    bad = _args_ok(calls, args, kw, token)
+                    if bad:
+                        failures.append({"key": f"C04/{site}/args", "op": opi,
+                                         "what": f"GroupBy.{outer}(callable, *{args}, **{kw}) handed args {bad[1]} kwargs {sorted(bad[2])} on"})
+                    per_group = {k: [] for k in keys}
+                    for u in log:
+                        per_group.setdefault(u % m, []).append(u)
+                    nvis = len(keys)
+                    if raised and log and (log[-1] % m) in keys:
+                        nvis = 1 + keys.index(log[-1] % m)
+                    if not raised:
+                        if outer == "do" and res is not gb:
+                            failures.append({"key": f"C04/{site}/return", "op": opi, "what": f"GroupBy.do returned {res!r}, not the GroupBy itself"})
+                        if outer == "map" and not (isinstance(res, dict) and list(res.keys()) == keys
+                                                   and all(res[k] == [2 * u + 1 for u in per_group[k]] for k in keys)):
+                            failures.append({"key": f"C04/{site}/results", "op": opi, "what": f"GroupBy.map returned {res!r}"})
+                    del res, gb
+                    run.strong = set()
+                    full = list(args) + list(kwargs)
+                    o = []
+                    for k in keys[:nvis]:
+                        o += [-34, k]
+                        for u in per_group.get(k, []):
+                            o += [u] + full
+                    obs.append(o + ([-37] if raised else [-32]) + [-38] + run.nlog + run.view())
+                    mop = ["grouplist", outer, byform, sref, m, _model_script(script, run.nested_perms), full, [],
+                           [_model_script(sc, run.nested_perms, lv + 1) for lv, sc in enumerate(scripts)]]
+            elif kind == "foreignset":
+                # a second model with n agents and a program-made set mixing its agents with ours (oracle only: the Gallina
+                # model has one registry).  ["foreignset", n, [ids in set order; ids >= 1001 name the foreign agents]]
+                _, n, order = op
+                mesa = env["mesa"]
+                if not run.models:
+                    other = mesa.Model(seed=11)
+                    other._hid_base = 1000
+                    run.models.append(other)
+                other = run.models[0]
+                for _ in range(max(0, min(int(n), 4))):
+                    ag = env["classes"][0](other)
+                    run.wv[ag._hid] = ag
+                    run.registered.add(ag._hid)
+                    run.created_at[ag._hid] = len(run.events)
+                    run.events.append(("create", ag._hid))
+                    del ag
+                from mesa.agent import AgentSet
+
+                ags = [run.wv.get(i) for i in order]
+                run.user_sets.append(AgentSet([a for a in ags if a is not None], random=run.model.random))
+                del ags
+                model_ok = False
+                obs.append(run.view())
             else:
                 raise ValueError(kind)
             failures += run.by_type_failures(opi)
         except Exception as e:  # noqa: BLE001
             ctx["rec"] = None
-            run.script = {}
-            run.script2 = {}
+            run.levels = []
+            run.strong = set()
             run.depth = 0
             obs.append([-1, 99])
             site = op[1] if kind in ("activate", "group") else kind
@@ -857,11 +1037,13 @@ def _run_impl(env, case):
     ctx["cur"] = None
     # Agent._ids is a class-level dict keyed by model: forget this model so that it can be freed
     env["mesa"].Agent._ids.pop(run.model, None)
-    return {"obs": obs, "failures": failures, "ops_for_model": ops_for_model}
+    for other in run.models:
+        env["mesa"].Agent._ids.pop(other, None)
+    return {"obs": obs, "failures": failures, "ops_for_model": ops_for_model, "model": model_ok}
 
 
 # ------------------------------------------------------------------ model side
-def _act(a):
+def _act(a, level=0):
     k = a[0]
     if k == "nop":
         return "Nop"
@@ -877,10 +1059,10 @@ def _act(a):
         return f"AddRef {L.z(a[1])}"
     if k == "raise":
         return "Raise"
-    if k == "nested":
-        if a[1] not in KINDS:
+    if k in ("nested", "trynested"):
+        if a[1] not in KINDS or (level >= 1 and a[1] == "shuffle_do"):
             return "Nop"
-        return f"Nested {_K[a[1]]} {_sref(a[2])} {L.zlist(a[3] if len(a) > 3 else [])}"
+        return f"{'Nested' if k == 'nested' else 'TryNested'} {_K[a[1]]} {_sref(a[2])} {L.zlist(a[3] if len(a) > 3 else [])}"
     raise ValueError(k)
 
 
@@ -892,12 +1074,16 @@ def _sref(s):
     return f"(SUser {L.z(s[1])})"
 
 
-def _script(sc):
+def _script(sc, level=0):
     # the driver's dict keeps the LAST entry for an id; the model's assoc lookup takes the first
     d = {}
     for i, acts in sc:
         d[int(i)] = acts
-    return L.lst([L.pair(L.z(i), L.lst([_act(a) for a in acts])) for i, acts in d.items()])
+    return L.lst([L.pair(L.z(i), L.lst([_act(a, level) for a in acts])) for i, acts in d.items()])
+
+
+def _scripts_lit(scs):
+    return L.lst([_script(sc, lv + 1) for lv, sc in enumerate(scs)])
 
 
 _K = {"do": "KDo", "shuffle_do": "KShuffleDo", "map": "KMap"}
@@ -911,15 +1097,17 @@ def coq_case(case):
         k = op[0]
         if k == "act":
             a = op[1]
-            out.append(f"OAct ({_act(a) if a[0] not in ('raise', 'nested') else 'Nop'})")
+            out.append(f"OAct ({_act(a) if a[0] not in ('raise', 'nested', 'trynested') else 'Nop'})")
         elif k == "newset":
             out.append(f"ONewSet {L.zlist(op[1])}")
         elif k == "collect":
             out.append("OCollect")
         elif k == "activate":
-            _, akind, form, sref, script, args, kwargs, script2 = op[:8]
+            _, akind, form, sref, script, args, kwargs, scripts = op[:8]
             perm = op[8] if len(op) > 8 else []
-            tail = f"{_sref(sref)} {L.zlist(perm)} {_script(script)} {_script(script2)} {L.zlist(list(args) + list(kwargs))}"
+            if akind.startswith("copy_"):
+                akind = akind[5:]     # a weakly held copy behaves like the set itself
+            tail = f"{_sref(sref)} {L.zlist(perm)} {_script(script)} {_scripts_lit(scripts)} {L.zlist(list(args) + list(kwargs))}"
             if akind == "shuffle_then_do":
                 out.append(f"OShuffleThenDo {tail}")
             elif akind in _K:
@@ -927,10 +1115,16 @@ def coq_case(case):
             else:
                 out.append("OActivate KDo (SUser (-1)) [] [] [] []")
         elif k == "group":
-            _, akind, outer, byform, sref, m, script, args, kwargs, script2 = op[:10]
+            _, akind, outer, byform, sref, m, script, args, kwargs, scripts = op[:10]
             perms = op[10] if len(op) > 10 else []
             ok = m in (1, 2, 3) and akind in _K
-            out.append(f"OGroup {_K.get(akind, 'KDo')} {_sref(sref)} {L.z(m if ok else 0)} {L.lst([L.zlist(p) for p in perms])} {_script(script)} {_script(script2)} {L.zlist(list(args) + list(kwargs))}")
+            out.append(f"OGroup {_K.get(akind, 'KDo')} {_sref(sref)} {L.z(m if ok else 0)} {L.lst([L.zlist(p) for p in perms])} {_script(script)} {_scripts_lit(scripts)} {L.zlist(list(args) + list(kwargs))}")
+        elif k == "grouplist":
+            _, outer, byform, sref, m, script, args, kwargs, scripts = op[:9]
+            ok = m in (1, 2, 3) and outer in ("do", "map")
+            out.append(f"OGroupList {_sref(sref)} {L.z(m if ok else 0)} {_script(script)} {_scripts_lit(scripts)} {L.zlist(list(args) + list(kwargs))}")
+        elif k == "foreignset":
+            out.append("OCollect")   # never evaluated: histories with a second model are oracle-only
         else:
             raise ValueError(k)
     return L.lst(out)
@@ -942,11 +1136,17 @@ def op_kinds(case):
         if op[0] == "activate":
             out.append(f"{op[1]}/{op[2]}/{op[3][0]}")
             for _, acts in op[4]:
-                out += [f"callback:{a[0]}" for a in acts if a[0] in ("raise", "nested")]
+                out += [f"callback:{a[0]}" for a in acts if a[0] in ("raise", "nested", "trynested")]
+            out += [f"nesting-depth:{1 + len(_scripts(op[7]))}"] if len(op) > 7 and op[7] else []
         elif op[0] == "group":
             out.append(f"groupby.{op[2]}({op[1]})/{op[3]}")
             for _, acts in op[6]:
-                out += [f"callback:{a[0]}" for a in acts if a[0] in ("raise", "nested")]
+                out += [f"callback:{a[0]}" for a in acts if a[0] in ("raise", "nested", "trynested")]
+            out += [f"nesting-depth:{1 + len(_scripts(op[9]))}"] if len(op) > 9 and op[9] else []
+        elif op[0] == "grouplist":
+            out.append(f"groupby-list.{op[1]}/{op[2]}")
+        elif op[0] == "foreignset":
+            out.append("second-model-set")
         elif op[0] == "act":
             out.append("program:" + op[1][0])
         else:
@@ -956,7 +1156,7 @@ def op_kinds(case):
 
 def nontrivial(case):
     for op, o in zip(case["ops"], case.get("_obs", [])):
-        if op[0] in ("activate", "group") and o and o[0] in (-30, -34):
+        if op[0] in ("activate", "group", "grouplist") and o and o[0] in (-30, -34):
             # at least two calls
             if op[0] == "activate":
                 width = 1 + len(op[5]) + len(op[6])
